@@ -417,6 +417,21 @@ def sendSite (applied : Option Nat) (fs : List Field) : SendOut :=
   | some (block, memSize) =>
     if memSize > peerLimit applied then .refused memSize (peerLimit applied) else .written block
 
+/-- `client::SendRequest::send_request` is the one send site with a suspension point *before* the
+    comparison: `poll_open_bidi().await` stays pending while the peer's bidirectional-stream limit
+    is exhausted, and the connection driver may store the peer's SETTINGS meanwhile.  The code
+    reads `self.settings().max_field_section_size` after that await, directly before the
+    comparison and the write: `atOpen` = the settings cell when the stream has been opened
+    (what is used), `atCall` = the cell when the call was made (not looked at). -/
+def sendRequestSite (_atCall atOpen : Option Nat) (fs : List Field) : SendOut := sendSite atOpen fs
+
+/-- `connection::RequestStream::split`: the field `max_field_section_size` (the limit for what
+    this stream object *receives*) of the two halves, `(send half, receive half)`: the send half
+    gets the literal `0`, the receive half keeps the configured maximum.  What either half may
+    *send* is not a field of the stream: `send_trailers` / `send_response` read the shared
+    settings cell (`sendSite`) whether the stream has been split or not. -/
+def splitLimits (maxFieldSectionSize : Nat) : Nat × Nat := (0, maxFieldSectionSize)
+
 /-- What a receive site does with `decode_stateless`'s answer. -/
 inductive RecvOut where
   /-- decoded; the call goes on to validate the message (C12) -/
